@@ -198,46 +198,46 @@ func PathCondsE(fn *ssa.Function) (map[*ssa.BasicBlock]DNF, map[Edge]DNF, bool) 
 				return nil
 			}
 		}
-		// a nil test of a phi (the result variable of an expanded helper, `x := f(); if x != nil`
-		// after expansion): per incoming edge of the phi the outcome is known, or is the nil-ness
-		// of that edge's operand
-		if nv, trueMeansNil, isNil := NilCheck(iff.Cond); isNil {
-			if phi, isPhi := nv.(*ssa.Phi); isPhi && IsExpansionTemp(phi) && (phi.Block() == p || phi.Block().Dominates(p)) {
-				q := phi.Block()
-				wantNil := (p.Succs[0] == b) == trueMeansNil
-				var d DNF
-				usable := true
-				for i, e := range phi.Edges {
-					pp := q.Preds[i]
-					if q.Dominates(pp) {
-						usable = false // carried around a loop
-						break
-					}
-					ec, have := edgeConds[Edge{pp, q}]
-					if !have {
-						continue
-					}
-					switch nilness(e, pp) {
-					case 1:
-						if wantNil {
-							d = d.or(ec)
-						}
-					case 2:
-						if !wantNil {
-							d = d.or(ec)
-						}
-					default:
-						l := nilLit(e)
-						l.Pos = wantNil
-						d = d.or(ec.and(l))
-					}
+		// a test of a merged result variable of an expanded helper (nil test, boolean, comparison
+		// with a constant): per incoming edge of the phi the outcome is known, or - for a nil
+		// test - is the nil-ness of that edge's operand
+		if phi, eval, isTest := PhiTest(iff.Cond); isTest && IsExpansionTemp(phi) && (phi.Block() == p || phi.Block().Dominates(p)) {
+			q := phi.Block()
+			wantTrue := p.Succs[0] == b
+			var d DNF
+			usable := true
+			_, trueMeansNil, isNil := NilCheck(iff.Cond)
+			for i, e := range phi.Edges {
+				pp := q.Preds[i]
+				if q.Dominates(pp) {
+					usable = false // carried around a loop
+					break
 				}
-				if usable {
-					if q == p {
-						return simplify(d)
-					}
-					return simplify(andDNF(pc, d))
+				ec, have := edgeConds[Edge{pp, q}]
+				if !have {
+					continue
 				}
+				val, known := eval(e, pp)
+				switch {
+				case known && val == wantTrue:
+					d = d.or(ec)
+				case known:
+				case isNil:
+					l := nilLit(e)
+					l.Pos = wantTrue == trueMeansNil
+					d = d.or(ec.and(l))
+				default:
+					usable = false
+				}
+				if !usable {
+					break
+				}
+			}
+			if usable {
+				if q == p {
+					return simplify(d)
+				}
+				return simplify(andDNF(pc, d))
 			}
 		}
 		v, neg := BoolCond(iff.Cond)
